@@ -235,8 +235,13 @@ func (e *Engine) defaultExternal(full string, fn *types.Func, recv Value, args [
 		isig = sig
 	}
 	// pointer arguments are filled in by the callee
+	var oldTarget Value
+	var targetObj types.Object
 	for _, a := range append(append([]Value(nil), args...), e.lastAnyArgs...) {
 		if ad, ok := a.(VAddr); ok {
+			if oldTarget == nil {
+				oldTarget, targetObj = st.vars[ad.Obj], ad.Obj
+			}
 			st.vars[ad.Obj] = e.freshValue(ad.Obj.Name(), ad.Obj.Type(), st)
 		}
 	}
@@ -270,6 +275,21 @@ func (e *Engine) defaultExternal(full string, fn *types.Func, recv Value, args [
 		err := errOf()
 		st.assume(mkAnd(mkImplies(mkEq(err, nilT), mkAnd(mkCmp("<=", mkInt(0), nr), mkCmp("<", nr, old))), mkImplies(mkNot(mkEq(err, nilT)), mkEq(nr, old))))
 		st.mem["extrem:"+rt.String()] = nr
+		if full == "encoding/json.Decoder.Decode" && targetObj != nil {
+			// encoding/json merges into the destination (absent struct fields keep their contents, maps are added to):
+			// only a destination holding the zero value is known to end up as the decoded element. jsoncnt(d): values
+			// decoded so far; jsonelem(r, k): the k-th value of the document read from r, decoded into a zero value
+			if ov, ok := oldTarget.(VTerm); ok {
+				if nv, ok := st.vars[targetObj].(VTerm); ok {
+					cnt := e.extCounter(st, "jsoncnt", rt)
+					src := st.getMem("jsonsrc:"+rt.String(), mkApp("jsonsrc0", SRef, rt))
+					elem := mkApp("jsonelem_"+sortTag(nv.T.Sort), nv.T.Sort, src, cnt)
+					zero := term(e.zeroValue(targetObj.Type()))
+					st.assume(mkImplies(mkAnd(mkEq(err, nilT), mkEq(ov.T, zero)), mkEq(nv.T, elem)))
+					st.mem["jsoncnt:"+rt.String()] = mkIte(mkEq(err, nilT), mkArith("+", cnt, mkInt(1)), cnt)
+				}
+			}
+		}
 		if full == "encoding/csv.Reader.Read" {
 			// FieldsPerRecord == 0 (default): every record has the field count of the first record read
 			rec := results[0].(VSlice)
@@ -280,9 +300,15 @@ func (e *Engine) defaultExternal(full string, fn *types.Func, recv Value, args [
 			st.mem["csvfpr:"+rt.String()] = nf
 		}
 	case "encoding/csv.NewReader":
+		// documented defaults of the dialect fields (the same dialect encoding/csv.Writer produces)
+		for f, v := range map[string]*Term{"Comma": mkInt(','), "Comment": mkInt(0), "FieldsPerRecord": mkInt(0), "LazyQuotes": tFalse, "TrimLeadingSpace": tFalse, "ReuseRecord": tFalse} {
+			st.mem["fld:"+term(results[0]).String()+"."+f] = v
+		}
 		st.mem["csvfpr:"+term(results[0]).String()] = mkInt(-1)
 		st.assume(mkCmp(">=", e.extCounter(st, "extrem", term(results[0])), mkInt(0)))
 	case "encoding/json.NewDecoder":
+		st.mem["jsoncnt:"+term(results[0]).String()] = mkInt(0)
+		st.mem["jsonsrc:"+term(results[0]).String()] = term(args[0])
 		st.assume(mkCmp(">=", e.extCounter(st, "extrem", term(results[0])), mkInt(0)))
 	case "os.OpenFile":
 		// ghost: was the file opened with O_TRUNC / O_APPEND (flags are a constant expression in this code base)
